@@ -47,7 +47,7 @@ def _greedy_radii(D, n, init):
 def _pyD(c):
     import math
     if c["metric"] == "matrix":
-        return c["M"]
+        return [[float(F(v)) for v in row] for row in c["M"]]
     X = c["X"]
     if c["metric"] == "manhattan":
         return [[sum(abs(a - b) for a, b in zip(p, q)) for q in X] for p in X]
@@ -61,6 +61,9 @@ def generate(rng, tier):
     for _ in range(N):
         if rng.random() < 0.15:
             cases.append(cc.gen_ti_boundary(rng))
+            continue
+        if rng.random() < 0.1:
+            cases.append(cc.gen_traj_kcenters(rng))
             continue
         c = cc.gen_kcenters(rng)
         if c["cutoff"] is not None and rng.random() < 0.7:
@@ -157,4 +160,4 @@ def tags(c, out):
     return t
 
 
-ESSENTIAL_TAGS = ["near-half-boundary", "count", "radius", "both", "warm-init", "ti", "estimator-form", "matrix", "euclidean", "manhattan"]
+ESSENTIAL_TAGS = ["md-trajectory-input", "near-half-boundary", "count", "radius", "both", "warm-init", "ti", "estimator-form", "matrix", "euclidean", "manhattan"]
